@@ -5,6 +5,7 @@ Rules are anchored on the public entries `stats` and `crosstab` and the function
 import ast
 
 from .astutil import calls, const, kw, parent_map, short, straightline_env, inline
+from .astutil import canon_test_text as _ctt
 from .backends import backend_paths, reachable
 from .kutil import Spec
 from .inline import _bind as _bind_args
@@ -858,15 +859,15 @@ def check_nan_results(prog, rep, fs, entry_of):
                     cur = st
                     while cur is not None and not guard_ok:
                         par = pm.get(cur)
-                        if isinstance(par, ast.If) and cur in par.body and norm(par.test).replace(' ', '') in pos:
+                        if isinstance(par, ast.If) and cur in par.body and _ctt(par.test) in pos:
                             guard_ok = True
-                        if isinstance(par, ast.If) and cur in par.orelse and norm(par.test).replace(' ', '') in neg:
+                        if isinstance(par, ast.If) and cur in par.orelse and _ctt(par.test) in neg:
                             guard_ok = True
                         for fld in ('body', 'orelse'):
                             blk = getattr(par, fld, None)
                             if isinstance(blk, list) and cur in blk:
                                 for prev in blk[:blk.index(cur)]:
-                                    if isinstance(prev, ast.If) and norm(prev.test).replace(' ', '') in neg and prev.body and \
+                                    if isinstance(prev, ast.If) and _ctt(prev.test) in neg and prev.body and \
                                             isinstance(prev.body[-1], (ast.Continue, ast.Return, ast.Break)) and not prev.orelse:
                                         # the tested vector must not be rebound between the test and the store
                                         guard_ok = True
